@@ -76,6 +76,9 @@ class Monitor(object):
                     d = srv.next_end_service_date
                     if srv.cust:
                         held.add(srv.cust.id_number)
+                        st = srv.cust.service_start_date
+                        if st is not False and not srv.cust.interrupted and st > now and not self.eq(st, now):
+                            self.violate("service_start_in_future", {"node": nd.id_number, "id": srv.cust.id_number, "service_start_date": st, "now": now})
                     if d < now and not self.eq(d, now):
                         self.violate("scheduled_in_past", {"what": "server.next_end_service_date", "node": nd.id_number,
                                                             "server": srv.id_number, "date": d, "now": now})
@@ -227,6 +230,8 @@ def focused(tier):
         out.append(single("slotted %s %s arrivals at 0" % (cap, opt), fam, K=K, T=8.0, arr=[0.0, 1.0], srv=[0.5, 2.0],
                           c={"slotted": {"slots": [1.0, 2.0], "sizes": [1, 2], "capacitated": cap, "preempt": opt}},
                           features=["slotted"]))
+    out += sched_preempt_chain(tier)
+    out += ageing_priorities(tier)
     return out
 
 
